@@ -173,3 +173,111 @@ Definition holds_sync (c : sync_case) : bool :=
       negb (sc_active c) && negb (must_deliver c)
   | OOther => false
   end.
+
+(* ====================================================================================== *)
+(* The resync stream: ONE real stub.Stub value registers several times with a real
+   adaptation.Adaptation, each time against its own state.  Registrations that fail after
+   some accepted chunks (a later chunk cannot be sent even at the minimum chunk size; the
+   runtime closes the plugin, the stub runs close()) are followed by registrations that
+   complete.  Objects of registration number j carry the ids at_base, at_base + 1, ...  *)
+
+Record attempt := {
+  at_base : Z;                 (* id of the first pod and of the first container of this state *)
+  at_wp : list Z;              (* measured sizes (expand_w) *)
+  at_wc : list Z;
+  (* observation *)
+  at_msgs : list obs_msg;      (* every Synchronize message the stub received on this connection *)
+  at_outcome : obs_outcome;    (* what the runtime's sync call-back was told *)
+  at_calls : list (list (Z * Z) * list (Z * Z));   (* handler invocations during this connection: id runs *)
+  at_upd : list Z;             (* updates the runtime's sync call-back received *)
+  at_active : bool             (* the plugin received the event sent after this registration *)
+}.
+
+Record resync_case := {
+  rs_hdr : Z; rs_more : Z; rs_limit : Z;
+  rs_nupd : Z;
+  rs_attempts : list attempt   (* in order; close() of the stub runs after each *)
+}.
+
+Definition proj_chunk_m (more_cost : Z) (ch : chunk obj obj) : pmsg :=
+  let '(mp, mc, more) := ch in
+  (map fst mp, map fst mc, more, payload_len (@snd Z Z) (@snd Z Z) more_cost mp mc more).
+
+Definition resync_handler (nupd : Z) : list obj -> list obj -> option (list Z) :=
+  fun _ _ => Some (zseq 0 (Z.to_nat nupd)).
+
+(* the model: the sender against the stub model, the stub state carried from one
+   registration to the next through stub_close (whether it resets: Model/SyncConsts.v) *)
+Fixpoint model_attempts (rc : resync_case) (st : stub_state obj obj) (l : list attempt) : list proj :=
+  match l with
+  | [] => []
+  | a :: r =>
+    let pods := number (at_base a) (expand_w (at_wp a)) in
+    let ctrs := number (at_base a) (expand_w (at_wc a)) in
+    let before := length (ss_calls st) in
+    let o := synchronize (xmit_size (@snd Z Z) (@snd Z Z) (rs_hdr rc) (rs_more rc) (rs_limit rc))
+                         (stub_sync (Some (resync_handler (rs_nupd rc)))) recalc (sync_fuel pods ctrs) pods ctrs st in
+    let new_calls (st' : stub_state obj obj) := proj_calls (skipn before (ss_calls st')) in
+    let '(p, st') :=
+      match o with
+      | Delivered s u st' =>
+          ({| pj_outcome := 0; pj_msgs := map (proj_chunk_m (rs_more rc)) s; pj_calls := new_calls st'; pj_upd := u; pj_active := active_after true |}, st')
+      | Failed _ s st' =>
+          ({| pj_outcome := 1; pj_msgs := map (proj_chunk_m (rs_more rc)) s; pj_calls := new_calls st'; pj_upd := []; pj_active := active_after false |}, st')
+      | Panic s => ({| pj_outcome := 2; pj_msgs := map (proj_chunk_m (rs_more rc)) s; pj_calls := []; pj_upd := []; pj_active := false |}, st)
+      | OutOfFuel s => ({| pj_outcome := 3; pj_msgs := map (proj_chunk_m (rs_more rc)) s; pj_calls := []; pj_upd := []; pj_active := false |}, st)
+      end in
+    p :: model_attempts rc (stub_close close_resets_sync st') r
+  end.
+
+Definition expand_msg (m : obs_msg) : pmsg :=
+  let '(pr, cr, more, sz) := m in (expand_ids pr, expand_ids cr, more, sz).
+
+Definition obs_attempt (a : attempt) : proj :=
+  {| pj_outcome := match at_outcome a with ODelivered => 0 | OFailed => 1 | OOther => 4 end;
+     pj_msgs := map expand_msg (at_msgs a);
+     pj_calls := map (fun pc => (expand_ids (fst pc), expand_ids (snd pc))) (at_calls a);
+     pj_upd := at_upd a;
+     pj_active := at_active a |}.
+
+Definition corr_resync (rc : resync_case) : bool :=
+  list_eqb proj_eqb (model_attempts rc stub_init (rs_attempts rc)) (map obs_attempt (rs_attempts rc)).
+
+(* ---------- the property's predicate on the observation ---------- *)
+
+(* the connection as the stub saw it, in the vocabulary of C09_sessions_isolated *)
+Fixpoint obs_session (msgs : list pmsg) : session Z Z :=
+  match msgs with
+  | [] => ([], SClosed)
+  | (p, c, more, _) :: r =>
+      if more then let '(g, e) := obs_session r in ((p, c) :: g, e) else ([], SFinal p c)
+  end.
+
+Definition calls_eqb := list_eqb (pair_eqb zlist_eqb zlist_eqb).
+
+Definition holds_attempt (rc : resync_case) (a : attempt) : bool :=
+  let o := obs_attempt a in
+  let wp := expand_w (at_wp a) in
+  let wc := expand_w (at_wc a) in
+  let ps := zseq (at_base a) (length wp) in
+  let cs := zseq (at_base a) (length wc) in
+  (* receiver (C09_sessions_isolated): the invocations during this connection are exactly what
+     this connection's own messages owe - nothing of an earlier connection, at most one *)
+  calls_eqb (pj_calls o) (session_delivery (obs_session (pj_msgs o))) &&
+  match at_outcome a with
+  | ODelivered =>
+      (* the messages carry exactly the supplied state, each object once, in order *)
+      zlist_eqb (concat (map (fun m : pmsg => fst (fst (fst m))) (pj_msgs o))) ps &&
+      zlist_eqb (concat (map (fun m : pmsg => snd (fst (fst m))) (pj_msgs o))) cs &&
+      more_flags_ok (map (fun m : pmsg => snd (fst m)) (pj_msgs o)) &&
+      (* the handler is invoked exactly once, with exactly the state of THIS registration *)
+      calls_eqb (pj_calls o) [(ps, cs)] &&
+      zlist_eqb (pj_upd o) (zseq 0 (Z.to_nat (rs_nupd rc)))
+  | OFailed =>
+      (* clean failure: no handler invocation, not activated; acceptable only when delivery is not owed (I4) *)
+      is_nil (pj_calls o) && negb (at_active a) &&
+      negb (min_chunks_fit (rs_hdr rc) (rs_more rc) (rs_limit rc) wp wc)
+  | OOther => false
+  end.
+
+Definition holds_resync (rc : resync_case) : bool := forallb (holds_attempt rc) (rs_attempts rc).
